@@ -4,7 +4,7 @@
 export OCAMLRUNPARAM=s=4M PYTHONDONTWRITEBYTECODE=1
 cd "$(dirname "$0")"
 repo="${VERIF_REPO:-/repo}"
-for t in translator/guards.py translator/codecs.py translator/predicates.py; do
+for t in translator/guards.py translator/codecs.py translator/predicates.py translator/sepstep.py; do
   [ -f $t ] && { /venv/bin/python $t "$repo" || echo "setup: $t reported a translation problem (the checks will report it)"; }
 done
 /venv/bin/python -c "import sys; sys.path.insert(0,'harness'); import framework; framework.ensure_makefile()" || exit 1
